@@ -1742,7 +1742,8 @@ class _Desugar(ast.NodeTransformer):
                 self.count += 1
         out = self._search_then_use(self._first_match(self._walrus(
             self._unroll(self._unroll_records(self._table_comprehension(
-                self._accumulate(self._devirtualise(out))))))))
+                self._accumulate(self._devirtualise(
+                    self._sink_after_choice(out)))))))))
         out = self._conditional_assign(self._match_literals(out))
         return self._dict_dispatch(out)
 
@@ -1806,6 +1807,94 @@ class _Desugar(ast.NodeTransformer):
                     continue
             out.append(h)
         return out
+
+    def _sink_after_choice(self, stmts):
+        """if c1: ...; call, args = f, (x,)
+           elif c2: ...; call, args = g, ()
+           else: return
+           REST using call(*args)
+        ->  REST written at the end of each arm that falls through, with
+        the arm's own values for the names it has just bound: a call put
+        together from parts chosen earlier is the calls it stands for.
+        Only when every falling arm ends with a binding of the same plain
+        names to stable values, REST is short, and those names are read
+        only there."""
+        for i, st in enumerate(stmts):
+            rest = stmts[i + 1:]
+            if not isinstance(st, ast.If) or not 1 <= len(rest) <= 4 or \
+                    not st.orelse or any(
+                        isinstance(x, (ast.FunctionDef, ast.ClassDef,
+                                       ast.Lambda))
+                        for r in rest for x in ast.walk(r)):
+                continue
+            leaves = []
+
+            def collect(node):
+                leaves.append(node.body)
+                if len(node.orelse) == 1 and \
+                        isinstance(node.orelse[0], ast.If):
+                    collect(node.orelse[0])
+                else:
+                    leaves.append(node.orelse)
+            collect(st)
+            falling = [b for b in leaves if not (
+                b and isinstance(b[-1], (ast.Return, ast.Raise, ast.Break,
+                                         ast.Continue)))]
+            if len(falling) < 2 or any(not b for b in falling):
+                continue
+            envs = []
+            for b in falling:
+                last = b[-1]
+                env = {}
+                if isinstance(last, ast.Assign) and len(last.targets) == 1:
+                    t, v = last.targets[0], last.value
+                    if isinstance(t, ast.Name):
+                        env = {t.id: v}
+                    elif isinstance(t, ast.Tuple) and \
+                            isinstance(v, ast.Tuple) and \
+                            len(t.elts) == len(v.elts) and all(
+                                isinstance(e, ast.Name) for e in t.elts):
+                        env = {e.id: x for e, x in zip(t.elts, v.elts)}
+                envs.append(env)
+
+            def stable(v):
+                if isinstance(v, (ast.Tuple, ast.List)):
+                    return all(stable(e) for e in v.elts)
+                if isinstance(v, ast.Dict):
+                    return all(k is not None and stable(k) and stable(x)
+                               for k, x in zip(v.keys, v.values))
+                return _stable_path(v)
+            names = set(envs[0])
+            if len(names) < 2 or any(set(e) != names for e in envs) or \
+                    not all(stable(v) for e in envs for v in e.values()):
+                continue
+            rest_names = [x for r in rest for x in ast.walk(r)
+                          if isinstance(x, ast.Name) and x.id in names]
+            if any(not isinstance(x.ctx, ast.Load) for x in rest_names) or \
+                    {x.id for x in rest_names} != names or any(
+                        sum(1 for x in rest_names if x.id == nm) != 1
+                        for nm in names):
+                continue
+            # operands of the bound values are not re-bound by REST
+            operands = {x.id for e in envs for v in e.values()
+                        for x in ast.walk(v) if isinstance(x, ast.Name)}
+            if operands & {x.id for r in rest for x in ast.walk(r)
+                           if isinstance(x, ast.Name) and
+                           isinstance(x.ctx, (ast.Store, ast.Del))}:
+                continue
+            # the names are read nowhere else in the arms
+            if any(isinstance(x, ast.Name) and x.id in names and
+                   isinstance(x.ctx, ast.Load)
+                   for b in leaves for s2 in b for x in ast.walk(s2)):
+                continue
+            import copy as _c
+            for b, env in zip(falling, envs):
+                tail = [_SplatFold().visit(_Subst(env, {}).visit(
+                    _c.deepcopy(r))) for r in rest]
+                b[-1:] = tail
+            self.count += 1
+            return stmts[:i + 1]
+        return stmts
 
     def _devirtualise(self, stmts):
         """if c: fn = a
